@@ -6,115 +6,731 @@
 import Stevia.Proofs.TreeDefs
 
 namespace Stevia
-namespace T
-variable {α β : Type}
-
-theorem size_eq_length (t : T α β) : size t = (toList t).length := by
-  sorry
-
-theorem toList_rebal (i : Nat) (l : T α β) (k : α) (v : β) (r : T α β) :
-    toList (rebal i l k v r) = toList l ++ (i, k, v) :: toList r := by
-  sorry
-
-theorem rebal_bal {i : Nat} {l : T α β} {k : α} {v : β} {r : T α β}
-    (hl : Bal l) (hr : Bal r) (h1 : ht l ≤ ht r + 2) (h2 : ht r ≤ ht l + 2) :
-    Bal (rebal i l k v r) := by
-  sorry
-
-theorem ht_eq_height {t : T α β} (hb : Bal t) : ht t = height t := by
-  sorry
-
-theorem minNodes_le_size {t : T α β} (hb : Bal t) : minNodes (ht t) ≤ size t := by
-  sorry
-
-theorem minKey_eq (t : T α β) : minKey t = (toList t).head?.map (·.2.1) := by
-  sorry
-
-variable [LinOrd α]
-
-theorem bst_iff_sorted (t : T α β) : Bst t ↔ SortedE (toList t) := by
-  sorry
-
-theorem find_eq_findL {t : T α β} (hb : Bst t) (k : α) : find k t = findL k (toList t) := by
-  sorry
-
-theorem toList_ins {t : T α β} (hb : Bst t) (idx : Nat) (k : α) (v : β) (hf : find k t = none) :
-    toList (ins idx k v t) = insL (idx, k, v) (toList t) := by
-  sorry
-
-theorem ins_bal {t : T α β} (hb : Bal t) (idx : Nat) (k : α) (v : β) :
-    Bal (ins idx k v t) ∧ (ht (ins idx k v t) = ht t ∨ ht (ins idx k v t) = ht t + 1) := by
-  sorry
-
-theorem toList_del {t : T α β} (hb : Bst t) (k : α) :
-    toList (del k t) = delL k (toList t) := by
-  sorry
-
-theorem del_bal {t : T α β} (hb : Bal t) (k : α) :
-    Bal (del k t) ∧ (ht (del k t) = ht t ∨ ht (del k t) + 1 = ht t) := by
-  sorry
-
-theorem toList_setVal {t : T α β} (hb : Bst t) (k : α) (v : β) :
-    toList (setVal k v t) = setL k v (toList t) := by
-  sorry
-
-theorem setVal_bal {t : T α β} (hb : Bal t) (k : α) (v : β) :
-    Bal (setVal k v t) ∧ ht (setVal k v t) = ht t := by
-  sorry
-
-theorem path_length_le (t : T α β) (k : α) : (path k t).length ≤ height t := by
-  sorry
-
-end T
 
 section ListLemmas
 variable {α β : Type} [LinOrd α]
 
+theorem length_insL (e : Entry α β) (l : List (Entry α β)) : (insL e l).length = l.length + 1 := by
+  induction l with
+  | nil => simp [insL]
+  | cons x rest ih => simp only [insL]; split <;> simp [ih]
+
+theorem perm_insL (e : Entry α β) (l : List (Entry α β)) : (insL e l).Perm (e :: l) := by
+  induction l with
+  | nil => simp [insL]
+  | cons x rest ih =>
+    simp only [insL]; split
+    · exact List.Perm.refl _
+    · exact (List.Perm.cons x ih).trans (List.Perm.swap e x rest)
+
+theorem mem_insL {e y : Entry α β} {l : List (Entry α β)} : y ∈ insL e l ↔ y = e ∨ y ∈ l := by
+  rw [(perm_insL e l).mem_iff, List.mem_cons]
+
+theorem mem_delL {k : α} {y : Entry α β} {l : List (Entry α β)} (h : y ∈ delL k l) : y ∈ l := by
+  induction l with
+  | nil => simp [delL] at h
+  | cons x rest ih =>
+    simp only [delL] at h
+    split at h
+    · rcases List.mem_cons.1 h with h | h
+      · exact h ▸ List.mem_cons_self
+      · exact List.mem_cons_of_mem _ (ih h)
+    · exact List.mem_cons_of_mem _ h
+
+theorem mem_setL {k : α} {v : β} {y : Entry α β} {l : List (Entry α β)} (h : y ∈ setL k v l) :
+    ∃ y' ∈ l, y'.2.1 = y.2.1 := by
+  induction l with
+  | nil => simp [setL] at h
+  | cons x rest ih =>
+    simp only [setL] at h
+    split at h
+    · rcases List.mem_cons.1 h with h | h
+      · exact ⟨x, List.mem_cons_self, by rw [h]⟩
+      · obtain ⟨y', hy', e⟩ := ih h
+        exact ⟨y', List.mem_cons_of_mem _ hy', e⟩
+    · rcases List.mem_cons.1 h with h | h
+      · exact ⟨x, List.mem_cons_self, by rw [h]⟩
+      · exact ⟨y, List.mem_cons_of_mem _ h, rfl⟩
+
+theorem findL_none_of_gt {k : α} {r : List (Entry α β)} (h : ∀ y ∈ r, k < y.2.1) :
+    findL k r = none := by
+  induction r with
+  | nil => rfl
+  | cons x rest ih =>
+    have hx : k < x.2.1 := h x List.mem_cons_self
+    simp only [findL, hx, or_true, if_true]
+    exact ih (fun y hy => h y (List.mem_cons_of_mem _ hy))
+
+theorem delL_of_none {l : List (Entry α β)} {k : α} (hf : findL k l = none) : delL k l = l := by
+  induction l with
+  | nil => rfl
+  | cons x rest ih =>
+    by_cases h : x.2.1 < k ∨ k < x.2.1
+    · simp only [findL, h, if_true] at hf
+      simp only [delL, h, if_true, ih hf]
+    · simp [findL, h] at hf
+
 theorem sorted_insL {l : List (Entry α β)} (hs : SortedE l) (e : Entry α β)
     (hf : findL e.2.1 l = none) : SortedE (insL e l) := by
-  sorry
+  induction l with
+  | nil => simp [insL, SortedE]
+  | cons x rest ih =>
+    by_cases h : x.2.1 < e.2.1 ∨ e.2.1 < x.2.1
+    · simp only [findL, h, if_true] at hf
+      obtain ⟨h1, h2⟩ := hs
+      simp only [insL]
+      split
+      · rename_i hlt
+        refine ⟨?_, h1, h2⟩
+        intro e' he'
+        rcases List.mem_cons.1 he' with rfl | he'
+        · exact hlt
+        · exact LinOrd.trans hlt (h1 e' he')
+      · rename_i hnlt
+        have hxe : x.2.1 < e.2.1 := h.resolve_right hnlt
+        refine ⟨?_, ih h2 hf⟩
+        intro e' he'
+        rcases mem_insL.1 he' with rfl | he'
+        · exact hxe
+        · exact h1 e' he'
+    · simp [findL, h] at hf
 
 theorem sorted_delL {l : List (Entry α β)} (hs : SortedE l) (k : α) : SortedE (delL k l) := by
-  sorry
+  induction l with
+  | nil => simp [delL, SortedE]
+  | cons x rest ih =>
+    obtain ⟨h1, h2⟩ := hs
+    simp only [delL]
+    split
+    · exact ⟨fun e' he' => h1 e' (mem_delL he'), ih h2⟩
+    · exact h2
 
 theorem sorted_setL {l : List (Entry α β)} (hs : SortedE l) (k : α) (v : β) :
     SortedE (setL k v l) := by
-  sorry
-
-theorem length_insL (e : Entry α β) (l : List (Entry α β)) : (insL e l).length = l.length + 1 := by
-  sorry
+  induction l with
+  | nil => simp [setL, SortedE]
+  | cons x rest ih =>
+    obtain ⟨h1, h2⟩ := hs
+    simp only [setL]
+    split
+    · refine ⟨fun e' he' => ?_, ih h2⟩
+      obtain ⟨y', hy', e⟩ := mem_setL he'
+      exact e ▸ h1 y' hy'
+    · exact ⟨h1, h2⟩
 
 theorem length_delL {l : List (Entry α β)} {k : α} {x : Nat × β} (hf : findL k l = some x) :
     (delL k l).length + 1 = l.length := by
-  sorry
-
-theorem delL_of_none {l : List (Entry α β)} {k : α} (hf : findL k l = none) : delL k l = l := by
-  sorry
+  induction l with
+  | nil => simp [findL] at hf
+  | cons y rest ih =>
+    by_cases h : y.2.1 < k ∨ k < y.2.1
+    · simp only [findL, h, if_true] at hf
+      simp only [delL, h, if_true, List.length_cons, ih hf]
+    · simp [delL, h]
 
 theorem length_setL (k : α) (v : β) (l : List (Entry α β)) : (setL k v l).length = l.length := by
-  sorry
-
-theorem perm_insL (e : Entry α β) (l : List (Entry α β)) : (insL e l).Perm (e :: l) := by
-  sorry
+  induction l with
+  | nil => rfl
+  | cons x rest ih => simp only [setL]; split <;> simp [ih]
 
 theorem perm_delL {l : List (Entry α β)} {k : α} {i : Nat} {v : β} (hf : findL k l = some (i, v)) :
     l.Perm ((i, k, v) :: delL k l) := by
-  sorry
+  induction l with
+  | nil => simp [findL] at hf
+  | cons x rest ih =>
+    by_cases h : x.2.1 < k ∨ k < x.2.1
+    · simp only [findL, h, if_true] at hf
+      simp only [delL, h, if_true]
+      exact (List.Perm.cons x (ih hf)).trans (List.Perm.swap _ _ _)
+    · simp only [findL, h, if_false, Option.some.injEq, Prod.mk.injEq] at hf
+      have hk : x.2.1 = k := LinOrd.eq_of_not_lt (fun a => h (Or.inl a)) (fun a => h (Or.inr a))
+      simp only [delL, h, if_false]
+      obtain ⟨xi, xk, xv⟩ := x
+      simp only at hf hk
+      obtain ⟨rfl, rfl⟩ := hf
+      subst hk
+      exact List.Perm.refl _
 
 theorem findL_insL_self {l : List (Entry α β)} (hs : SortedE l) (e : Entry α β)
     (hf : findL e.2.1 l = none) : findL e.2.1 (insL e l) = some (e.1, e.2.2) := by
-  sorry
+  have hirr : ¬ (e.2.1 < e.2.1 ∨ e.2.1 < e.2.1) := fun h => LinOrd.irrefl _ (h.elim id id)
+  induction l with
+  | nil => simp only [insL, findL, hirr, if_false]
+  | cons x rest ih =>
+    by_cases h : x.2.1 < e.2.1 ∨ e.2.1 < x.2.1
+    · simp only [findL, h, if_true] at hf
+      simp only [insL]
+      split
+      · simp only [findL, hirr, if_false]
+      · simp only [findL, h, if_true]
+        exact ih hs.2 hf
+    · simp [findL, h] at hf
 
 theorem findL_insL_other {l : List (Entry α β)} (e : Entry α β) {k : α}
     (hk : k < e.2.1 ∨ e.2.1 < k) : findL k (insL e l) = findL k l := by
-  sorry
+  have hk' : e.2.1 < k ∨ k < e.2.1 := hk.symm
+  induction l with
+  | nil => simp only [insL, findL, hk', if_true]
+  | cons x rest ih =>
+    simp only [insL]
+    split
+    · simp only [findL, hk', if_true]
+    · simp only [findL, ih]
 
 theorem findL_delL_self {l : List (Entry α β)} (hs : SortedE l) (k : α) : findL k (delL k l) = none := by
-  sorry
+  induction l with
+  | nil => rfl
+  | cons x rest ih =>
+    by_cases h : x.2.1 < k ∨ k < x.2.1
+    · simp only [delL, h, if_true, findL]
+      exact ih hs.2
+    · simp only [delL, h, if_false]
+      have hk : x.2.1 = k := LinOrd.eq_of_not_lt (fun a => h (Or.inl a)) (fun a => h (Or.inr a))
+      exact findL_none_of_gt (fun y hy => hk ▸ hs.1 y hy)
 
 theorem findL_delL_other {l : List (Entry α β)} (hs : SortedE l) {k k' : α}
     (hk : k' < k ∨ k < k') : findL k' (delL k l) = findL k' l := by
-  sorry
+  induction l with
+  | nil => rfl
+  | cons x rest ih =>
+    by_cases h : x.2.1 < k ∨ k < x.2.1
+    · simp only [delL, h, if_true, findL, ih hs.2]
+    · simp only [delL, h, if_false]
+      have hk2 : x.2.1 = k := LinOrd.eq_of_not_lt (fun a => h (Or.inl a)) (fun a => h (Or.inr a))
+      have : x.2.1 < k' ∨ k' < x.2.1 := by rw [hk2]; exact hk.symm
+      simp only [findL, this, if_true]
+
+theorem setL_of_none {l : List (Entry α β)} {k : α} {v : β} (hf : findL k l = none) :
+    setL k v l = l := by
+  induction l with
+  | nil => rfl
+  | cons x rest ih =>
+    by_cases h : x.2.1 < k ∨ k < x.2.1
+    · simp only [findL, h, if_true] at hf
+      simp only [setL, h, if_true, ih hf]
+    · simp [findL, h] at hf
+
+theorem findL_append_of_lt {k : α} {l r : List (Entry α β)} (h : ∀ x ∈ l, x.2.1 < k) :
+    findL k (l ++ r) = findL k r := by
+  induction l with
+  | nil => rfl
+  | cons x rest ih =>
+    have hx : x.2.1 < k := h x List.mem_cons_self
+    simp only [List.cons_append, findL, hx, true_or, if_true]
+    exact ih (fun y hy => h y (List.mem_cons_of_mem _ hy))
+
+theorem findL_append_of_gt {k : α} {l r : List (Entry α β)} (h : ∀ y ∈ r, k < y.2.1) :
+    findL k (l ++ r) = findL k l := by
+  induction l with
+  | nil => exact findL_none_of_gt h
+  | cons x rest ih => simp only [List.cons_append, findL, ih]
+
+theorem insL_append_of_lt {e : Entry α β} {l r : List (Entry α β)} (h : ∀ x ∈ l, x.2.1 < e.2.1) :
+    insL e (l ++ r) = l ++ insL e r := by
+  induction l with
+  | nil => rfl
+  | cons x rest ih =>
+    have hx : ¬ e.2.1 < x.2.1 := LinOrd.asymm (h x List.mem_cons_self)
+    simp only [List.cons_append, insL, hx, if_false]
+    rw [ih (fun y hy => h y (List.mem_cons_of_mem _ hy))]
+
+theorem insL_append_cons_of_gt {e x : Entry α β} {l r : List (Entry α β)} (h : e.2.1 < x.2.1) :
+    insL e (l ++ x :: r) = insL e l ++ x :: r := by
+  induction l with
+  | nil => simp only [List.nil_append, insL, h, if_true, List.cons_append]
+  | cons y rest ih =>
+    simp only [List.cons_append, insL]
+    split
+    · rfl
+    · rw [ih]; rfl
+
+theorem delL_append_of_lt {k : α} {l r : List (Entry α β)} (h : ∀ x ∈ l, x.2.1 < k) :
+    delL k (l ++ r) = l ++ delL k r := by
+  induction l with
+  | nil => rfl
+  | cons x rest ih =>
+    have hx : x.2.1 < k := h x List.mem_cons_self
+    simp only [List.cons_append, delL, hx, true_or, if_true]
+    rw [ih (fun y hy => h y (List.mem_cons_of_mem _ hy))]
+
+theorem delL_append_of_gt {k : α} {l r : List (Entry α β)} (h : ∀ y ∈ r, k < y.2.1) :
+    delL k (l ++ r) = delL k l ++ r := by
+  induction l with
+  | nil => exact delL_of_none (findL_none_of_gt h)
+  | cons x rest ih =>
+    simp only [List.cons_append, delL]
+    split
+    · rw [ih]; rfl
+    · rfl
+
+theorem setL_append_of_lt {k : α} {v : β} {l r : List (Entry α β)} (h : ∀ x ∈ l, x.2.1 < k) :
+    setL k v (l ++ r) = l ++ setL k v r := by
+  induction l with
+  | nil => rfl
+  | cons x rest ih =>
+    have hx : x.2.1 < k := h x List.mem_cons_self
+    simp only [List.cons_append, setL, hx, true_or, if_true]
+    rw [ih (fun y hy => h y (List.mem_cons_of_mem _ hy))]
+
+theorem setL_append_of_gt {k : α} {v : β} {l r : List (Entry α β)} (h : ∀ y ∈ r, k < y.2.1) :
+    setL k v (l ++ r) = setL k v l ++ r := by
+  induction l with
+  | nil => exact setL_of_none (findL_none_of_gt h)
+  | cons x rest ih =>
+    simp only [List.cons_append, setL]
+    split
+    · rw [ih]; rfl
+    · rfl
 
 end ListLemmas
+
+namespace T
+variable {α β : Type}
+
+theorem size_eq_length (t : T α β) : size t = (toList t).length := by
+  induction t with
+  | nil => rfl
+  | node i l k v h r ihl ihr => simp [size, toList, ihl, ihr]; omega
+
+@[simp] theorem ht_nil : ht (nil : T α β) = 0 := rfl
+
+@[simp] theorem ht_node (i : Nat) (l : T α β) (k : α) (v : β) (h : Nat) (r : T α β) :
+    ht (node i l k v h r) = h + 1 := rfl
+
+@[simp] theorem ht_mk (i : Nat) (l : T α β) (k : α) (v : β) (r : T α β) :
+    ht (mk i l k v r) = max (ht l) (ht r) + 1 := rfl
+
+@[simp] theorem toList_mk (i : Nat) (l : T α β) (k : α) (v : β) (r : T α β) :
+    toList (mk i l k v r) = toList l ++ (i, k, v) :: toList r := rfl
+
+theorem toList_rotL (t : T α β) : toList (rotL t) = toList t := by
+  unfold rotL; split <;> simp [toList]
+
+theorem toList_rotR (t : T α β) : toList (rotR t) = toList t := by
+  unfold rotR; split <;> simp [toList]
+
+theorem toList_rebal (i : Nat) (l : T α β) (k : α) (v : β) (r : T α β) :
+    toList (rebal i l k v r) = toList l ++ (i, k, v) :: toList r := by
+  unfold rebal
+  split
+  · rw [toList_rotR, toList_mk]; split
+    · rw [toList_rotL]
+    · rfl
+  · split
+    · rw [toList_rotL, toList_mk]; split
+      · rw [toList_rotR]
+      · rfl
+    · rfl
+
+theorem bal_mk {i : Nat} {l : T α β} {k : α} {v : β} {r : T α β}
+    (hl : Bal l) (hr : Bal r) (h1 : ht l ≤ ht r + 1) (h2 : ht r ≤ ht l + 1) :
+    Bal (mk i l k v r) := ⟨hl, hr, h1, h2, rfl⟩
+
+theorem rebal_mid {i : Nat} {l : T α β} {k : α} {v : β} {r : T α β}
+    (h1 : ht l ≤ ht r + 1) (h2 : ht r ≤ ht l + 1) :
+    rebal i l k v r = mk i l k v r := by
+  unfold rebal
+  rw [if_neg (by omega), if_neg (by omega)]
+
+theorem rebal_left {i : Nat} {l : T α β} {k : α} {v : β} {r : T α β}
+    (hl : Bal l) (hr : Bal r) (h : ht l = ht r + 2) :
+    Bal (rebal i l k v r) ∧ (ht (rebal i l k v r) = ht l ∨ ht (rebal i l k v r) = ht l + 1) := by
+  unfold rebal
+  rw [if_pos (by omega)]
+  cases l with
+  | nil => simp [ht] at h
+  | node j ll lk lv lh lr =>
+    by_cases hc : ht ll < ht lr
+    · simp only [left, right, hc, if_true]
+      cases lr with
+      | nil => simp [ht] at hc
+      | node m lrl lrk lrv lrh lrr =>
+        simp only [rotL, rotR, mk, Bal, ht] at *
+        grind
+    · simp only [left, right, hc, if_false]
+      simp only [rotR, mk, Bal, ht] at *
+      grind
+
+theorem rebal_right {i : Nat} {l : T α β} {k : α} {v : β} {r : T α β}
+    (hl : Bal l) (hr : Bal r) (h : ht r = ht l + 2) :
+    Bal (rebal i l k v r) ∧ (ht (rebal i l k v r) = ht r ∨ ht (rebal i l k v r) = ht r + 1) := by
+  unfold rebal
+  rw [if_neg (by omega), if_pos (by omega)]
+  cases r with
+  | nil => simp [ht] at h
+  | node j rl rk rv rh rr =>
+    by_cases hc : ht rr < ht rl
+    · simp only [left, right, hc, if_true]
+      cases rl with
+      | nil => simp [ht] at hc
+      | node m rll rlk rlv rlh rlr =>
+        simp only [rotL, rotR, mk, Bal, ht] at *
+        grind
+    · simp only [left, right, hc, if_false]
+      simp only [rotL, mk, Bal, ht] at *
+      grind
+
+theorem rebal_bal {i : Nat} {l : T α β} {k : α} {v : β} {r : T α β}
+    (hl : Bal l) (hr : Bal r) (h1 : ht l ≤ ht r + 2) (h2 : ht r ≤ ht l + 2) :
+    Bal (rebal i l k v r) := by
+  by_cases h3 : ht l = ht r + 2
+  · exact (rebal_left hl hr h3).1
+  · by_cases h4 : ht r = ht l + 2
+    · exact (rebal_right hl hr h4).1
+    · rw [rebal_mid (by omega) (by omega)]
+      exact bal_mk hl hr (by omega) (by omega)
+
+/-- Everything `ins` / `del` / `popMin` need to know about one `rebal` step. -/
+theorem rebal_spec {i : Nat} {l : T α β} {k : α} {v : β} {r : T α β}
+    (hl : Bal l) (hr : Bal r) (h1 : ht l ≤ ht r + 2) (h2 : ht r ≤ ht l + 2) :
+    Bal (rebal i l k v r) ∧
+    ((ht l ≤ ht r + 1 ∧ ht r ≤ ht l + 1 ∧ ht (rebal i l k v r) = max (ht l) (ht r) + 1) ∨
+     ((ht l = ht r + 2 ∨ ht r = ht l + 2) ∧
+       (ht (rebal i l k v r) = max (ht l) (ht r) ∨ ht (rebal i l k v r) = max (ht l) (ht r) + 1))) := by
+  refine ⟨rebal_bal hl hr h1 h2, ?_⟩
+  by_cases h3 : ht l = ht r + 2
+  · have := (rebal_left (i := i) (k := k) (v := v) hl hr h3).2
+    right; refine ⟨Or.inl h3, ?_⟩
+    rw [Nat.max_eq_left (by omega)]; exact this
+  · by_cases h4 : ht r = ht l + 2
+    · have := (rebal_right (i := i) (k := k) (v := v) hl hr h4).2
+      right; refine ⟨Or.inr h4, ?_⟩
+      rw [Nat.max_eq_right (by omega)]; exact this
+    · left
+      rw [rebal_mid (by omega) (by omega)]
+      exact ⟨by omega, by omega, rfl⟩
+
+theorem ht_eq_height {t : T α β} (hb : Bal t) : ht t = height t := by
+  induction t with
+  | nil => rfl
+  | node i l k v h r ihl ihr =>
+    obtain ⟨hl, hr, _, _, hh⟩ := hb
+    simp only [ht_node, height, hh, ihl hl, ihr hr]
+
+theorem minNodes_mono (n : Nat) : minNodes n ≤ minNodes (n + 1) := by
+  match n with
+  | 0 => simp [minNodes]
+  | n + 1 => simp only [minNodes]; omega
+
+theorem minNodes_step (a b : Nat) (h1 : a ≤ b + 1) (h2 : b ≤ a + 1) :
+    minNodes (max a b + 1) ≤ minNodes a + 1 + minNodes b := by
+  rcases Nat.lt_trichotomy a b with hlt | heq | hgt
+  · obtain rfl : b = a + 1 := by omega
+    rw [Nat.max_eq_right (by omega)]
+    simp only [minNodes]; omega
+  · subst heq
+    rw [Nat.max_self]
+    match a with
+    | 0 => simp [minNodes]
+    | m + 1 =>
+      have := minNodes_mono m
+      simp only [minNodes]; omega
+  · obtain rfl : a = b + 1 := by omega
+    rw [Nat.max_eq_left (by omega)]
+    simp only [minNodes]; omega
+
+theorem minNodes_le_size {t : T α β} (hb : Bal t) : minNodes (ht t) ≤ size t := by
+  induction t with
+  | nil => simp [minNodes]
+  | node i l k v h r ihl ihr =>
+    obtain ⟨hl, hr, h1, h2, hh⟩ := hb
+    have il := ihl hl
+    have ir := ihr hr
+    have := minNodes_step _ _ h1 h2
+    simp only [ht_node, size, hh]
+    omega
+
+theorem minKey_eq (t : T α β) : minKey t = (toList t).head?.map (·.2.1) := by
+  induction t with
+  | nil => rfl
+  | node i l k v h r ihl ihr =>
+    cases l with
+    | nil => simp [minKey, toList]
+    | node j ll lk lv lh lr =>
+      simp only [minKey]
+      rw [ihl]
+      simp [toList, List.head?_append]
+
+theorem all_iff (p : α → Prop) (t : T α β) : All p t ↔ ∀ e ∈ toList t, p e.2.1 := by
+  induction t with
+  | nil => simp [All, toList]
+  | node i l k v h r ihl ihr =>
+    simp only [All, toList, ihl, ihr, List.mem_append, List.mem_cons]
+    constructor
+    · rintro ⟨h1, h2, h3⟩ e (he | rfl | he)
+      · exact h1 e he
+      · exact h2
+      · exact h3 e he
+    · intro hh
+      exact ⟨fun e he => hh e (Or.inl he), hh (i, k, v) (Or.inr (Or.inl rfl)),
+        fun e he => hh e (Or.inr (Or.inr he))⟩
+
+variable [LinOrd α]
+
+theorem sortedE_append (l r : List (Entry α β)) :
+    SortedE (l ++ r) ↔ SortedE l ∧ SortedE r ∧ ∀ x ∈ l, ∀ y ∈ r, x.2.1 < y.2.1 := by
+  induction l with
+  | nil => simp [SortedE]
+  | cons a l ih =>
+    simp only [List.cons_append, SortedE, ih, List.mem_append, List.mem_cons]
+    constructor
+    · rintro ⟨h1, h2, h3, h4⟩
+      refine ⟨⟨fun e he => h1 e (Or.inl he), h2⟩, h3, ?_⟩
+      rintro x (rfl | hx) y hy
+      · exact h1 y (Or.inr hy)
+      · exact h4 x hx y hy
+    · rintro ⟨⟨h1, h2⟩, h3, h4⟩
+      refine ⟨?_, h2, h3, fun x hx y hy => h4 x (Or.inr hx) y hy⟩
+      rintro e (he | he)
+      · exact h1 e he
+      · exact h4 a (Or.inl rfl) e he
+
+theorem bst_iff_sorted (t : T α β) : Bst t ↔ SortedE (toList t) := by
+  induction t with
+  | nil => simp [Bst, toList, SortedE]
+  | node i l k v h r ihl ihr =>
+    simp only [Bst, toList, sortedE_append, SortedE, all_iff, ihl, ihr]
+    constructor
+    · rintro ⟨hl, hr, hlk, hrk⟩
+      refine ⟨hl, ⟨hrk, hr⟩, ?_⟩
+      intro x hx y hy
+      rcases List.mem_cons.1 hy with rfl | hy
+      · exact hlk x hx
+      · exact LinOrd.trans (hlk x hx) (hrk y hy)
+    · rintro ⟨hl, ⟨hrk, hr⟩, hh⟩
+      exact ⟨hl, hr, fun e he => hh e he _ List.mem_cons_self, hrk⟩
+
+/-- Facts about the root key of a search tree, in list form. -/
+theorem bst_node {i : Nat} {l : T α β} {k : α} {v : β} {h : Nat} {r : T α β}
+    (hb : Bst (node i l k v h r)) :
+    Bst l ∧ Bst r ∧ (∀ e ∈ toList l, e.2.1 < k) ∧ (∀ e ∈ toList r, k < e.2.1) := by
+  obtain ⟨hl, hr, hlk, hrk⟩ := hb
+  exact ⟨hl, hr, (all_iff _ _).1 hlk, (all_iff _ _).1 hrk⟩
+
+theorem find_eq_findL {t : T α β} (hb : Bst t) (k : α) : find k t = findL k (toList t) := by
+  induction t with
+  | nil => rfl
+  | node i l k' v' h r ihl ihr =>
+    obtain ⟨hl, hr, hlk, hrk⟩ := bst_node hb
+    simp only [find, toList]
+    by_cases h1 : k < k'
+    · rw [if_pos h1, ihl hl]
+      refine (findL_append_of_gt ?_).symm
+      intro y hy
+      rcases List.mem_cons.1 hy with rfl | hy
+      · exact h1
+      · exact LinOrd.trans h1 (hrk y hy)
+    · rw [if_neg h1]
+      by_cases h2 : k' < k
+      · rw [if_pos h2, ihr hr, findL_append_of_lt (fun x hx => LinOrd.trans (hlk x hx) h2)]
+        simp only [findL, h2, true_or, if_true]
+      · rw [if_neg h2]
+        obtain rfl : k' = k := LinOrd.eq_of_not_lt h2 h1
+        rw [findL_append_of_lt hlk]
+        simp only [findL, h1, or_self, if_false]
+
+theorem toList_ins {t : T α β} (hb : Bst t) (idx : Nat) (k : α) (v : β) (hf : find k t = none) :
+    toList (ins idx k v t) = insL (idx, k, v) (toList t) := by
+  induction t with
+  | nil => rfl
+  | node i l k' v' h r ihl ihr =>
+    obtain ⟨hl, hr, hlk, hrk⟩ := bst_node hb
+    simp only [find] at hf
+    simp only [ins, toList]
+    by_cases h1 : k < k'
+    · rw [if_pos h1] at hf
+      rw [if_pos h1, toList_rebal, ihl hl hf]
+      exact (insL_append_cons_of_gt h1).symm
+    · rw [if_neg h1] at hf ⊢
+      by_cases h2 : k' < k
+      · rw [if_pos h2] at hf
+        rw [if_pos h2, toList_rebal, ihr hr hf,
+          insL_append_of_lt (e := (idx, k, v)) (fun x hx => LinOrd.trans (hlk x hx) h2)]
+        simp only [insL, h1, if_false]
+      · rw [if_neg h2] at hf
+        exact absurd hf (by simp)
+
+theorem ins_bal {t : T α β} (hb : Bal t) (idx : Nat) (k : α) (v : β) :
+    Bal (ins idx k v t) ∧ (ht (ins idx k v t) = ht t ∨ ht (ins idx k v t) = ht t + 1) := by
+  induction t with
+  | nil => simp [ins, Bal]
+  | node i l k' v' h r ihl ihr =>
+    obtain ⟨hl, hr, h1, h2, hh⟩ := hb
+    simp only [ins]
+    split
+    · obtain ⟨b, e⟩ := ihl hl
+      have := rebal_spec (i := i) (k := k') (v := v') b hr (by omega) (by omega)
+      refine ⟨this.1, ?_⟩
+      simp only [ht_node, hh]
+      grind
+    · split
+      · obtain ⟨b, e⟩ := ihr hr
+        have := rebal_spec (i := i) (k := k') (v := v') hl b (by omega) (by omega)
+        refine ⟨this.1, ?_⟩
+        simp only [ht_node, hh]
+        grind
+      · exact ⟨⟨hl, hr, h1, h2, hh⟩, Or.inl rfl⟩
+
+omit [LinOrd α] in
+theorem popMin_toList (i : Nat) (l : T α β) (k : α) (v : β) (r : T α β) :
+    (popMin i l k v r).1 :: toList (popMin i l k v r).2 = toList l ++ (i, k, v) :: toList r := by
+  induction l generalizing i k v r with
+  | nil => rfl
+  | node li ll lk lv lh lr ihl _ =>
+    simp only [popMin, toList_rebal, toList]
+    rw [← ihl li lk lv lr]
+    rfl
+
+omit [LinOrd α] in
+theorem popMin_bal {i : Nat} {l : T α β} {k : α} {v : β} {r : T α β}
+    (hl : Bal l) (hr : Bal r) (h1 : ht l ≤ ht r + 1) (h2 : ht r ≤ ht l + 1) :
+    Bal (popMin i l k v r).2 ∧
+      (ht (popMin i l k v r).2 = max (ht l) (ht r) + 1 ∨
+       ht (popMin i l k v r).2 = max (ht l) (ht r)) := by
+  induction l generalizing i k v r with
+  | nil =>
+    simp only [popMin, ht_nil] at *
+    exact ⟨hr, Or.inr (by omega)⟩
+  | node li ll lk lv lh lr ihl _ =>
+    obtain ⟨bll, blr, g1, g2, hh⟩ := hl
+    obtain ⟨b, e⟩ := ihl (i := li) (k := lk) (v := lv) bll blr g1 g2
+    simp only [popMin]
+    simp only [ht_node, hh] at *
+    have := rebal_spec (i := i) (k := k) (v := v) b hr (by omega) (by omega)
+    refine ⟨this.1, ?_⟩
+    grind
+
+theorem toList_del {t : T α β} (hb : Bst t) (k : α) :
+    toList (del k t) = delL k (toList t) := by
+  induction t with
+  | nil => rfl
+  | node i l k' v' h r ihl ihr =>
+    obtain ⟨hl, hr, hlk, hrk⟩ := bst_node hb
+    by_cases h1 : k < k'
+    · simp only [del, if_pos h1, toList_rebal, toList, ihl hl]
+      refine (delL_append_of_gt ?_).symm
+      intro y hy
+      rcases List.mem_cons.1 hy with rfl | hy
+      · exact h1
+      · exact LinOrd.trans h1 (hrk y hy)
+    · by_cases h2 : k' < k
+      · simp only [del, if_neg h1, if_pos h2, toList_rebal, toList, ihr hr]
+        rw [delL_append_of_lt (fun x hx => LinOrd.trans (hlk x hx) h2)]
+        simp only [delL, h2, true_or, if_true]
+      · obtain rfl : k' = k := LinOrd.eq_of_not_lt h2 h1
+        have hR : delL k' (toList (node i l k' v' h r)) = toList l ++ toList r := by
+          simp only [toList]
+          rw [delL_append_of_lt hlk]
+          simp only [delL, h1, or_self, if_false]
+        rw [hR]
+        simp only [del, if_neg h1]
+        cases l with
+        | nil =>
+          cases r with
+          | nil => rfl
+          | node ri rl rk rv rh rr => rfl
+        | node li ll lk lv lh lr =>
+          cases r with
+          | nil => simp [toList]
+          | node ri rl rk rv rh rr =>
+            simp only [toList_rebal]
+            have := popMin_toList ri rl rk rv rr
+            rw [show ((popMin ri rl rk rv rr).1.1, (popMin ri rl rk rv rr).1.2.1,
+              (popMin ri rl rk rv rr).1.2.2) = (popMin ri rl rk rv rr).1 from rfl, this]
+            rfl
+
+theorem del_bal {t : T α β} (hb : Bal t) (k : α) :
+    Bal (del k t) ∧ (ht (del k t) = ht t ∨ ht (del k t) + 1 = ht t) := by
+  induction t with
+  | nil => exact ⟨hb, Or.inl rfl⟩
+  | node i l k' v' h r ihl ihr =>
+    obtain ⟨hl, hr, h1, h2, hh⟩ := hb
+    simp only [del]
+    split
+    · obtain ⟨b, e⟩ := ihl hl
+      have := rebal_spec (i := i) (k := k') (v := v') b hr (by omega) (by omega)
+      refine ⟨this.1, ?_⟩
+      simp only [ht_node, hh]
+      grind
+    · split
+      · obtain ⟨b, e⟩ := ihr hr
+        have := rebal_spec (i := i) (k := k') (v := v') hl b (by omega) (by omega)
+        refine ⟨this.1, ?_⟩
+        simp only [ht_node, hh]
+        grind
+      · split
+        · simp_all
+        · refine ⟨hl, ?_⟩
+          simp only [ht_node, ht_nil] at *
+          omega
+        · refine ⟨hr, ?_⟩
+          simp only [ht_node, ht_nil] at *
+          omega
+        · rename_i li ll lk lv lh lr ri rl rk rv rh rr
+          obtain ⟨brl, brr, g1, g2, gh⟩ := hr
+          obtain ⟨b, e⟩ := popMin_bal (i := ri) (k := rk) (v := rv) brl brr g1 g2
+          have := rebal_spec (i := (popMin ri rl rk rv rr).1.1) (k := (popMin ri rl rk rv rr).1.2.1)
+            (v := (popMin ri rl rk rv rr).1.2.2) hl b
+            (by simp only [ht_node, gh] at *; omega) (by simp only [ht_node, gh] at *; omega)
+          refine ⟨this.1, ?_⟩
+          simp only [ht_node, hh, gh] at *
+          grind
+
+theorem toList_setVal {t : T α β} (hb : Bst t) (k : α) (v : β) :
+    toList (setVal k v t) = setL k v (toList t) := by
+  induction t with
+  | nil => rfl
+  | node i l k' v' h r ihl ihr =>
+    obtain ⟨hl, hr, hlk, hrk⟩ := bst_node hb
+    simp only [setVal]
+    by_cases h1 : k < k'
+    · rw [if_pos h1]
+      simp only [toList]
+      rw [ihl hl]
+      refine (setL_append_of_gt ?_).symm
+      intro y hy
+      rcases List.mem_cons.1 hy with rfl | hy
+      · exact h1
+      · exact LinOrd.trans h1 (hrk y hy)
+    · rw [if_neg h1]
+      by_cases h2 : k' < k
+      · rw [if_pos h2]
+        simp only [toList]
+        rw [ihr hr, setL_append_of_lt (fun x hx => LinOrd.trans (hlk x hx) h2)]
+        simp only [setL, h2, true_or, if_true]
+      · rw [if_neg h2]
+        obtain rfl : k' = k := LinOrd.eq_of_not_lt h2 h1
+        simp only [toList]
+        rw [setL_append_of_lt hlk]
+        simp only [setL, h1, or_self, if_false]
+
+theorem setVal_bal {t : T α β} (hb : Bal t) (k : α) (v : β) :
+    Bal (setVal k v t) ∧ ht (setVal k v t) = ht t := by
+  induction t with
+  | nil => exact ⟨hb, rfl⟩
+  | node i l k' v' h r ihl ihr =>
+    obtain ⟨hl, hr, h1, h2, hh⟩ := hb
+    simp only [setVal]
+    split
+    · obtain ⟨b, e⟩ := ihl hl
+      exact ⟨⟨b, hr, by omega, by omega, by rw [e]; exact hh⟩, rfl⟩
+    · split
+      · obtain ⟨b, e⟩ := ihr hr
+        exact ⟨⟨hl, b, by omega, by omega, by rw [e]; exact hh⟩, rfl⟩
+      · exact ⟨⟨hl, hr, h1, h2, hh⟩, rfl⟩
+
+theorem path_length_le (t : T α β) (k : α) : (path k t).length ≤ height t := by
+  induction t with
+  | nil => simp [path, height]
+  | node i l k' v' h r ihl ihr =>
+    simp only [path, height, List.length_cons]
+    have := Nat.le_max_left (height l) (height r)
+    have := Nat.le_max_right (height l) (height r)
+    split
+    · omega
+    · split
+      · omega
+      · simp
+
+end T
 end Stevia
